@@ -13,11 +13,20 @@ import (
 	"verif/engine/sym"
 )
 
-const (
-	repoDir    = "/repo"
-	verifDir   = "/verif"
-	harnessDir = "/verif/harness"
+// Directories. The registered commands run against /repo and /verif; the overrides exist so
+// that long background runs (vp run --with-repo) can work on snapshots.
+var (
+	repoDir    = envOr("VERIF_REPO", "/repo")
+	verifDir   = envOr("VERIF_DIR", "/verif")
+	harnessDir = envOr("VERIF_DIR", "/verif") + "/harness"
 )
+
+func envOr(k, def string) string {
+	if v := os.Getenv(k); v != "" {
+		return v
+	}
+	return def
+}
 
 func usage() {
 	fmt.Fprintln(os.Stderr, `usage:
